@@ -22,6 +22,7 @@ var propPkgs = map[string][]string{
 	"C01": {"./internal/index"},
 	"C18": {"./internal/tools/regexAnalysis"},
 	"C07": {"./internal/index"},
+	"C15": {"./internal/index/converters"},
 }
 
 type Finding struct {
